@@ -29,7 +29,7 @@ func TestC05LockState(t *testing.T) {
 			defer m.Close()
 			m.CheckWipe = true
 			maxPopulated := 0
-			m.Run(t, weights, 5, maxSteps, 0, func(op string) {
+			m.Run(t, weights, 5, maxSteps, 12, func(op string) {
 				m.CheckAllIssued("after " + op)
 				m.CheckAccessors("after " + op)
 				if !m.Locked && !m.WatchOnly {
